@@ -88,11 +88,17 @@ func genC15(e *emitter, tier string, seed int64) {
 		{"grok-code-digits", []scriptSrc{{"a.p", "add_pattern(\"code\", \"\\\\d+\")\ngrok(_, \"%{WORD:w} %{code:c}\")\np(get_key(w), get_key(c))\n"}}, 0},
 		{"grok-code-any", []scriptSrc{{"a.p", "add_pattern(\"code\", \".*\")\ngrok(_, \"%{WORD:w} %{code:c}\")\np(get_key(w), get_key(c))\n"}}, 0},
 		{"grok-code-undefined", []scriptSrc{{"a.p", "grok(_, \"%{WORD:w} %{code:c}\")\np(get_key(w), get_key(c))\n"}}, 0},
+		// a zone that cannot be loaded fails the same way every time
+		{"bad-zone", []scriptSrc{{"a.p", "add_key(ts, \"2021-03-15 00:08:10\")\ndefault_time(ts, \"Mars/Phobos\")\np(get_key(ts), get_key(pl_msg))\n"}}, 0},
+		{"bad-zone-house-layout", []scriptSrc{{"a.p", "add_key(ts, \"171113 14:14:20\")\ndefault_time(ts, \"Mars/Phobos\")\np(get_key(ts), get_key(pl_msg))\n"}}, 0},
+		{"time-reader", []scriptSrc{{"a.p", "add_key(ts, \"not a time\")\ndefault_time(ts)\np(get_key(ts), get_key(pl_msg))\n"}}, 0},
 		{"map-json", []scriptSrc{{"a.p", "j = load_json(\"{\\\"a\\\": [1, 2.5]}\")\nadd_key(j)\nadd_key(k2, j[\"a\"][1])\n"}}, 0},
 	}
 	points := []pointSpec{
 		{Meas: "m", Time: 1600000000000000000, Fields: []fieldSpec{{"message", "str", "hello 42"}, {"f1", "int", "7"}}, Tags: [][2]string{{"t1", "tv"}}},
 		{Meas: "other", Time: 5, Fields: []fieldSpec{{"message", "str", "x"}, {"k", "str", "pre"}, {"f1", "float", "4609434218613702656"}}},
+		// a point without a timestamp (the zero time): a recycled point object must not lend it one
+		{Meas: "nots", Time: zeroTimeNanos, Fields: []fieldSpec{{"message", "str", "y 7"}}},
 	}
 	sqlPoints := []pointSpec{
 		{Meas: "q", Time: 7, Fields: []fieldSpec{{"message", "str", "select * from t where name = 'backslash\\' AND id ='1234'"}}},
@@ -102,7 +108,7 @@ func genC15(e *emitter, tier string, seed int64) {
 		s := pool[i]
 		pt := points[j]
 		if s.name == "sql" {
-			pt = sqlPoints[j]
+			pt = sqlPoints[j%2]
 		}
 		return runCase{Scripts: s.scripts, Entry: "a.p", Point: pt, SigK: s.sigK, HasSig: true}
 	}
@@ -140,6 +146,8 @@ func genC15(e *emitter, tier string, seed int64) {
 			emitHist([][3]int{{a, 0, 0}, {b, 1, 0}, {a, 1, 0}, {b, 0, 0}}, "pairs")
 			// load a, load b, then run both sets as loaded
 			emitHist([][3]int{{a, 0, 0}, {b, 1, 0}, {a, 1, 1}, {b, 0, 2}, {a, 0, 1}}, "pairs-held")
+			// a time-stamped point, then points without a timestamp
+			emitHist([][3]int{{a, 0, 0}, {b, 2, 0}, {a, 2, 0}}, "pairs-zero-time")
 		}
 	}
 	N, maxLen := 150, 40
@@ -150,7 +158,7 @@ func genC15(e *emitter, tier string, seed int64) {
 		l := 3 + rng.Intn(maxLen)
 		idx := make([][3]int, l)
 		for k := range idx {
-			idx[k] = [3]int{rng.Intn(n), rng.Intn(2), 0}
+			idx[k] = [3]int{rng.Intn(n), rng.Intn(3), 0}
 			if k > 0 && rng.Intn(3) == 0 {
 				idx[k][2] = 1 + rng.Intn(k)
 			}
